@@ -111,7 +111,10 @@ class Merged:
         for s in d["samples"]:
             if len(self.samples) < 5:
                 self.samples.append(s)
-        self.violations.extend(d["violations"])
+        for v in d["violations"]:
+            if "worker_history" in d:
+                v = dict(v, _history=d["worker_history"], _task=d["worker_task"])
+            self.violations.append(v)
         self.caps.extend(d["caps"])
         self.extra.update(d["extra"])
         self.closed = self.closed and d["closed"]
@@ -122,10 +125,13 @@ class Merged:
 # pool
 
 _MOD = None
+_HISTORY = []     # tasks this worker process has executed so far (attached to a violation: see cli "history-dependent")
 
 
 def _init_worker():
     import torch
+
+    del _HISTORY[:]
 
     torch.set_num_threads(1)
     try:
@@ -139,7 +145,14 @@ def _init_worker():
 def _exec(task):
     try:
         p = _MOD.run_task(task)
-        return p.pack()
+        d = p.pack()
+        if d.get("violations"):
+            # the executions this process ran before: a library that keeps module-level state across independent
+            # executions can make a violation depend on them; the runner replays them when the task alone does not fail
+            d["worker_history"] = list(_HISTORY)
+            d["worker_task"] = task
+        _HISTORY.append(task)
+        return d
     except HarnessError as e:
         return {"harness_error": f"{task!r}: {e}"}
     except Exception:
@@ -170,6 +183,22 @@ def run_tasks(mod, tasks, procs=None, order_by_cost=True):
     return merged
 
 
+def run_history(mod, history, task):
+    """Re-execute `history` then `task`, in that order, in ONE freshly forked worker (same start state as a pool worker)."""
+    global _MOD
+    _MOD = mod
+    import multiprocessing as mp
+
+    merged = Merged()
+    with mp.get_context("fork").Pool(1, initializer=_init_worker) as pool:
+        seq = list(history) + [task]
+        for k, t in enumerate(seq):
+            d = pool.apply(_exec, (t,))
+            if k == len(seq) - 1:
+                merged.add(d)
+    return merged
+
+
 # ------------------------------------------------------------------------------------------
 # findings
 
@@ -194,6 +223,7 @@ def write_replay(prop, v, seed):
                 "what": v["what"],
                 "seed": seed,
                 "task": v["replay"],
+                "history": v.get("_history_used"),
                 "observed": v.get("observed"),
                 "expected": v.get("expected"),
             },
